@@ -1034,6 +1034,87 @@ theorem C12_modules_content_applies (h : List ModulesArgs) (a : ModulesArgs) (p 
   rw [← this]
   exact EntryOK_of_entryOK x hd
 
+/-! ## Headline: any history, any further call -/
+
+/-- **C12 for `Rpms.add`** — after ANY history of calls, a further call with ANY arguments either is refused
+(`ValueError`, exactly when one of the precondition checks fails, mapping identical) or is accepted, and then:
+the arguments passed every check and determine the keys (`RpmsAccepted`: canonical N-E:V-R.A of the RPM and of its
+source package, lower-cased signing key), the record sits at `[variant][arch][srpm key][rpm key]`, and every lookup
+path that does not lead to that record reads what it read before. -/
+theorem C12_rpms_history (h : List RpmsArgs) (a : RpmsArgs) :
+    (∃ e, rpmsCheck a = .error e ∧ e = .valueError ∧ Rpms.add (runRpms empty h) a = (runRpms empty h, .error e))
+    ∨ (∃ p, rpmsCheck a = .ok p ∧ RpmsAccepted a p ∧ (Rpms.add (runRpms empty h) a).2 = .ok ()
+        ∧ getPath (Rpms.add (runRpms empty h) a).1 [a.variant, a.arch, p.srpmKey, p.key] = some p.record
+        ∧ ∀ path, Off (OtherKey p.key) path [a.variant, a.arch, p.srpmKey] →
+            getPath (Rpms.add (runRpms empty h) a).1 path = getPath (runRpms empty h) path) := by
+  have hout := C12_rpms_outcome _ (C12_rpms_reachable h) a
+  cases hc : rpmsCheck a with
+  | error e =>
+    left
+    refine ⟨e, rfl, rpmsCheck_error_class a e hc, ?_⟩
+    unfold Rpms.add; rw [hc]
+  | ok p =>
+    right
+    rw [hc] at hout
+    have hok : (Rpms.add (runRpms empty h) a).2 = .ok () := hout
+    exact ⟨p, rfl, C12_rpms_plan a p hc, hok, C12_rpms_content _ a p hc hok, fun path hp => C12_rpms_frame _ a p hc path hp⟩
+
+/-- **C12 for `Modules.add`** — any history, any further call: refused with `ValueError` and the identical mapping
+exactly when a precondition check fails; otherwise accepted, `[variant][arch][canonical uid]` holds the metadata
+record, the category's modulemd path (other categories kept) and the RPM list extended, and every lookup path that
+leaves that entry reads what it read before. -/
+theorem C12_modules_history (h : List ModulesArgs) (a : ModulesArgs) :
+    (∃ e, modulesCheck a = .error e ∧ e = .valueError ∧ Modules.add (runModules empty h) a = (runModules empty h, .error e))
+    ∨ (∃ p, modulesCheck a = .ok p ∧ ModulesAccepted a p ∧ (Modules.add (runModules empty h) a).2 = .ok ()
+        ∧ (∃ e mp l,
+            (getPath (runModules empty h) [a.variant, a.arch, p.uid]).getD (.dict []) = .dict e
+            ∧ (lookup e (lit "modulemd_path")).getD (.dict []) = .dict mp
+            ∧ (lookup e (lit "rpms")).getD (.list []) = .list l
+            ∧ getPath (Modules.add (runModules empty h) a).1 [a.variant, a.arch, p.uid, lit "metadata"] = some p.metadata
+            ∧ getPath (Modules.add (runModules empty h) a).1 [a.variant, a.arch, p.uid, lit "modulemd_path", p.category]
+                = some (.str p.path)
+            ∧ (∀ c', c' ≠ p.category →
+                getPath (Modules.add (runModules empty h) a).1 [a.variant, a.arch, p.uid, lit "modulemd_path", c'] = lookup mp c')
+            ∧ getPath (Modules.add (runModules empty h) a).1 [a.variant, a.arch, p.uid, lit "rpms"] = some (.list (l ++ p.rpms)))
+        ∧ ∀ path, Off (fun _ => False) path [a.variant, a.arch, p.uid] →
+            getPath (Modules.add (runModules empty h) a).1 path = getPath (runModules empty h) path) := by
+  cases hc : modulesCheck a with
+  | error e =>
+    left
+    refine ⟨e, rfl, modulesCheck_error_class a e hc, ?_⟩
+    unfold Modules.add; rw [hc]
+  | ok p =>
+    right
+    obtain ⟨hs, hnav⟩ := C12_modules_content_applies h a p
+    obtain ⟨e, mp, l, h1, h2, h3, h4, h5, h6, h7, h8⟩ := C12_modules_content _ a p hc hs hnav
+    exact ⟨p, rfl, C12_modules_plan a p hc, h4, ⟨e, mp, l, h1, h2, h3, h5, h6, h7, h8⟩,
+      fun path hp => C12_modules_frame _ a p hc path hp⟩
+
+/-- **C12 for `ExtraFiles.add`** — any history, any further call: refused (`ValueError`, or `TypeError` for checksums
+that are not a dict) with the identical mapping exactly when a precondition check fails; otherwise the record
+`{file, size, checksums}` is appended to the list under `[variant][arch]` and nothing else changes. -/
+theorem C12_extra_history (h : List ExtraArgs) (a : ExtraArgs) :
+    (∃ e, extraCheck a = .error e ∧ (e = .valueError ∨ e = .typeError)
+        ∧ ExtraFiles.add (runExtra empty h) a = (runExtra empty h, .error e))
+    ∨ (extraCheck a = .ok (extraRecord a) ∧ (ExtraFiles.add (runExtra empty h) a).2 = .ok ()
+        ∧ (∃ l, (getPath (runExtra empty h) [a.variant, a.arch]).getD (.list []) = .list l
+              ∧ getPath (ExtraFiles.add (runExtra empty h) a).1 [a.variant, a.arch] = some (.list (l ++ [extraRecord a])))
+        ∧ ∀ path, Off (OtherKey a.arch) path [a.variant] →
+            getPath (ExtraFiles.add (runExtra empty h) a).1 path = getPath (runExtra empty h) path) := by
+  have hout := C12_extra_outcome _ (C12_extra_reachable h) a
+  cases hc : extraCheck a with
+  | error e =>
+    left
+    refine ⟨e, rfl, extraCheck_error_class a e hc, ?_⟩
+    unfold ExtraFiles.add; rw [hc]
+  | ok r =>
+    right
+    rw [hc] at hout
+    have hok : (ExtraFiles.add (runExtra empty h) a).2 = .ok () := hout
+    have hr := (C12_extra_plan a r hc).2.2.2.2.2
+    subst hr
+    exact ⟨rfl, hok, C12_extra_content _ a _ hc hok, fun path hp => C12_extra_frame _ a _ hc path hp⟩
+
 /-! ## Witnesses: the documented layout on concrete calls, and the two places where the code accepts what the
 property statement lists as refused (known findings C12-K1, C12-K2) -/
 
